@@ -227,9 +227,11 @@ class Rig:
                     rig.gated.add(threading.current_thread())
                     rig.gate(k).wait(WAIT)
                     rig.gated.discard(threading.current_thread())
-                return dict(rig.daemon_annotations)
+                # an application may keep its annotations in one long-lived dict and return that very object every time
+                return rig.daemon_annotations if rig.persistent_annotations else dict(rig.daemon_annotations)
 
         self.daemon_annotations = {}
+        self.persistent_annotations = False
         self.hook_raises = set()
         self.gates = {}
         self.gated = set()
